@@ -193,6 +193,14 @@ func (d *Device) Image() []byte {
 }
 
 // Corrupt flips the byte at off in both the current and durable image.
+// CorruptWith flips the bits of mask in the byte at off (current and durable contents).
+func (d *Device) CorruptWith(off int64, mask byte) {
+	d.mu.Lock()
+	defer d.mu.Unlock()
+	d.cur[off] ^= mask
+	d.durable[off] ^= mask
+}
+
 func (d *Device) Corrupt(off int64) {
 	d.mu.Lock()
 	defer d.mu.Unlock()
